@@ -25,7 +25,7 @@ def gen_case(r):
         run = r.choice([0, 0, 1, 2])
         ends = True if action == "ANone" else r.random() < 0.3
         svcs.append({"action": action, "run": run, "ends": ends, "cleanup": r.choice([0, 0, 1, 2]),
-                     "async_action": r.random() < 0.5})
+                     "ctx": r.choice([0, 0, 1, 2]), "async_action": r.random() < 0.5})
     prog = []
     cb = 0
     order = list(range(n))
@@ -43,7 +43,7 @@ def gen_case(r):
 
 def svc_term(sv):
     a = {"ACancel": "ACancel", "ANone": "ANone", "ACall": "(ACall false)", "ACallRaises": "(ACall true)"}[sv["action"]]
-    return f"(Svc {a} {sv['run']} {cbool(sv['ends'])} {sv['cleanup']})"
+    return f"(Svc {a} {sv['run']} {cbool(sv['ends'])} {sv['cleanup']} {sv.get('ctx', 0)})"
 
 
 def bop_term(b):
@@ -208,7 +208,8 @@ def run(ck: Check):
         "distinct_nontrivial": sum(1 for v in distinct.values() if v),
         "rule": "seeded owner-context programs: 1-4 service tasks (teardown_action 'cancel' / None / sync or async "
                 "callable that succeeds or raises; 0-2 gated segments of own work; ending by itself or waiting to be "
-                "told; 0-2 gated, shielded cleanup segments) interleaved with 0-6 teardown callbacks, in a root or a "
+                "told; 0-2 gated, shielded cleanup segments; 0-2 gated segments of teardown of the task's own context) "
+                "interleaved with 0-6 teardown callbacks, in a root or a "
                 "nested context, every schedule chosen by the director; enabled gates and observation batches "
                 "compared with the model at every step. distinct = by (program, schedule); non-trivial = >= 2 "
                 "service tasks and the block was left",
